@@ -26,7 +26,7 @@ FLAGS = flags.FLAGS
 
 
 def main(argv):
-    font_file = util.only(argv, lambda a: a.endswith(".ttf"))
+    font_file = util.only(argv, lambda a: a.endswith((".ttf", ".otf")))
     config_file = Path(util.only(argv, lambda a: a.endswith(".toml")))
     font = ttLib.TTFont(font_file)
     upem = font["head"].unitsPerEm
